@@ -317,6 +317,9 @@ fn felt_u64(f: &Felt) -> Option<u64> {
 
 pub fn c10(ctx: &mut Ctx) {
     let scenario = "c10.queries";
+    for p in ["query-collision-before-dedup", "count-at-or-above-domain-size", "adjacent-indices-in-different-cosets", "recorded-query-set-reproduced"] {
+        ctx.stats.declare_probe(p);
+    }
     let n_inst: u64 = if ctx.is_quick() { 30_000 } else { 400_000 };
     for k in 0..n_inst {
         if !ctx.mine(k) {
